@@ -708,6 +708,14 @@ func (ex *Exec) evalSpecFunc(name string, call *ast.CallExpr, st *State) []Value
 			pats = append(pats, []*Term{t})
 		}
 		return []Value{boolV(mkQuant(qop, []*Term{bv}, full, pats...))}
+	case "floordiv", "floormod":
+		a := ex.eval(call.Args[0], st).scalar()
+		b := ex.eval(call.Args[1], st).scalar()
+		op := "fldiv"
+		if name == "floormod" {
+			op = "flmod"
+		}
+		return []Value{scalarV(mathintType, mkArith(op, a, b))}
 	case "unixns":
 		t := ex.eval(call.Args[0], st)
 		return []Value{scalarV(mathintType, timeNS(t))}
